@@ -81,11 +81,24 @@ struct Original {
     hashes: UserTransactionHashes,
     /// expected signer badge set per intent (root first, then subintents)
     signers: Vec<BTreeSet<NonFungibleGlobalId>>,
+    /// built by the malicious client (carries a forged signature): must never be accepted
+    malicious: bool,
 }
 
 fn build_tx(v2: bool, signers: &[u8], notary: u8, notary_is_signatory: bool, with_message: bool, with_blob: bool, children: u8, tip: u16, disc: u64) -> Option<(Vec<u8>, Vec<BTreeSet<NonFungibleGlobalId>>)> {
     let nk = Key::of(notary);
-    let signer_keys: Vec<Key> = signers.iter().collect::<BTreeSet<_>>().into_iter().map(|i| Key::of(*i)).collect();
+    // signer index 255 = a malicious client: besides the honest signatures it adds, before notarizing,
+    // a message-independent Ed25519 "signature" (R = identity, s = 0) for the small-order public key
+    // 01 00..00 - a key nobody holds, so it never signs anything and must never appear as a signer
+    let forged = signers.contains(&255);
+    let forged_sig = || {
+        let mut pk = [0u8; 32];
+        pk[0] = 1;
+        let mut sig = [0u8; 64];
+        sig[0] = 1;
+        SignatureWithPublicKeyV1::Ed25519 { public_key: Ed25519PublicKey(pk), signature: Ed25519Signature(sig) }
+    };
+    let signer_keys: Vec<Key> = signers.iter().filter(|i| **i != 255).collect::<BTreeSet<_>>().into_iter().map(|i| Key::of(*i)).collect();
     let mut root_set: BTreeSet<NonFungibleGlobalId> = signer_keys.iter().map(|k| k.global_id()).collect();
     if notary_is_signatory {
         root_set.insert(nk.global_id());
@@ -118,6 +131,9 @@ fn build_tx(v2: bool, signers: &[u8], notary: u8, notary_is_signatory: bool, wit
                 Key::S(k) => tb.sign(k),
                 Key::E(k) => tb.sign(k),
             };
+        }
+        if forged {
+            tb = tb.signer_signatures(vec![forged_sig()]);
         }
         tb = match &nk {
             Key::S(k) => tb.notarize(k),
@@ -174,6 +190,9 @@ fn build_tx(v2: bool, signers: &[u8], notary: u8, notary_is_signatory: bool, wit
                     Key::S(k) => tb.sign(k),
                     Key::E(k) => tb.sign(k),
                 };
+            }
+            if forged {
+                tb = tb.add_signature(forged_sig());
             }
             let tb = match &nk {
                 Key::S(k) => tb.notarize(k),
@@ -468,9 +487,10 @@ impl World for Transport {
                 }
                 if originals.len() < 2 || rng.chance(1, 5) {
                     let ns = rng.range(0, 4) as usize;
+                    let malicious_client = rng.chance(1, 10);
                     return Some(Step::NewTx {
                         v2: rng.chance(1, 2),
-                        signers: (0..ns).map(|_| rng.below(8) as u8).collect(),
+                        signers: (0..ns).map(|_| rng.below(8) as u8).chain(if malicious_client { Some(255u8) } else { None }).collect(),
                         notary: rng.range(10, 13) as u8,
                         notary_is_signatory: rng.chance(1, 2),
                         with_message: rng.chance(1, 2),
@@ -516,7 +536,11 @@ impl World for Transport {
                         stats.bump("newtx.unpreparable");
                         continue;
                     };
-                    originals.push(Original { raw, hashes: p.hashes(), signers: signer_sets });
+                    let malicious = signers.contains(&255);
+                    if malicious {
+                        stats.bump("client.forged_small_order_signature");
+                    }
+                    originals.push(Original { raw, hashes: p.hashes(), signers: signer_sets, malicious });
                 }
                 Step::Deliver { tx, corrupt } => {
                     let Some(orig) = originals.get(tx as usize) else { continue };
@@ -728,9 +752,12 @@ impl World for Transport {
                     };
                     match validated {
                         Err(e) => {
-                            if !corrupted {
+                            if !corrupted && !orig.malicious {
                                 violation = Some(mk(&format!("{}.clean_payload_rejected", pfx), format!("tx {}: {:?}", tx, e)));
                                 break;
+                            }
+                            if orig.malicious {
+                                stats.bump("deliver.forged_client_signature_rejected");
                             }
                             stats.bump("deliver.corrupted_rejected_at_validate");
                             stats.distinct.insert(prng::mix(kind_code, 1));
